@@ -417,7 +417,8 @@ def typecode(sx, ser_id):
 def real_bytes(sx, ser_id, which):
     """a few arbitrary / mutated octet strings through the real codec (concrete; the C codecs themselves are not encoded)"""
     from autobahn.wamp.exception import ProtocolError
-    from .c03 import _serializer
+    from .c03 import _serializer, _restore_codecs
+    _restore_codecs()
     s = _serializer(ser_id, False)
     if s is None:
         return ["missing"]
